@@ -123,6 +123,12 @@ func (e2Engine) Run(p *Plan) *Result {
 }
 
 type c15Run struct {
+	prop  string // "C15", or "C14" for the plans that restart the sender (see genC14Sender)
+	// excused: documents with a push in flight when the sender stopped and no write since. The update
+	// event that caused the push lives in memory only; nothing durable obliges the restarted node to
+	// deliver it, so its delivery is not demanded (a later write to the document makes it due again).
+	excused map[string]bool
+	aKey  []byte
 	p     *Plan
 	res   *Result
 	ctx   context.Context
@@ -191,10 +197,14 @@ func c15Project(row map[string]any) map[string]any {
 }
 
 func runC15(p *Plan, res *Result) {
+	runC15As(p, res, "C15")
+}
+
+func runC15As(p *Plan, res *Result, prop string) {
 	ctx, cancel := context.WithCancel(context.Background())
 	defer cancel()
 	installRand(p.Seed)
-	r := &c15Run{p: p, res: res, ctx: ctx, net: newSimNet(), deleted: map[string]bool{}, history: map[string]map[string]bool{}, start: time.Now()}
+	r := &c15Run{prop: prop, p: p, res: res, ctx: ctx, net: newSimNet(), deleted: map[string]bool{}, history: map[string]map[string]bool{}, start: time.Now()}
 	r.opts = NodeOpts{DBOpts: []db.Option{db.WithEnabledSigning(p.cfg("sign", 0) != 0)}}
 	if p.cfg("sign", 0) == 1 {
 		r.opts.Ident = immutable.Some[identity.Identity](seededIdentity(p.Seed, "shared", false))
@@ -203,7 +213,8 @@ func runC15(p *Plan, res *Result) {
 	pubsub := true
 	var err error
 	setRandStep("startA")
-	r.a, err = r.net.startE2Node(ctx, 0, NewSimStore(), seededPeerKey(p.Seed, "A"), intervals, pubsub, r.opts)
+	r.aKey = seededPeerKey(p.Seed, "A")
+	r.a, err = r.net.startE2Node(ctx, 0, NewSimStore(), r.aKey, intervals, pubsub, r.opts)
 	if err != nil {
 		res.HarnessErr = "start A: " + err.Error()
 		return
@@ -369,6 +380,42 @@ func (r *c15Run) exec(i int, s Step, maxInterval time.Duration) {
 		r.shape = append(r.shape, "crash")
 	case "recover":
 		r.recoverB()
+	case "arestart", "acrash":
+		// the sender is closed (or crashes) and is reopened on its store; requests it had in flight are gone
+		st := r.a.Store
+		if r.excused == nil {
+			r.excused = map[string]bool{}
+		}
+		for _, pr := range r.net.pendingSorted() {
+			if pr.from == r.a.PID {
+				r.excused[pr.req.DocID] = true
+				res.Stats["pushes_in_flight_at_sender_stop"]++
+			}
+		}
+		if s.K == "acrash" {
+			r.a.crash() // nothing becomes durable from here on
+		} else {
+			r.a.shutdown()
+		}
+		for _, pr := range r.net.pendingSorted() {
+			if pr.from == r.a.PID {
+				r.net.drop(pr)
+			}
+		}
+		synctest.Wait()
+		r.net.mu.Lock()
+		delete(r.net.nodes, r.a.PID)
+		r.net.mu.Unlock()
+		setRandStep("restartA")
+		na, err := r.net.startE2Node(r.ctx, 0, st.Reopen(-1), r.aKey, r.a.intervals, r.a.pubsub, r.opts)
+		if err != nil {
+			res.violate(r.prop, "cannot-restart", s.K, i, "the sender failed to restart: %v", err)
+			return
+		}
+		r.a = na
+		res.Stats["a_restarted"]++
+		r.lastFaultAt = time.Now()
+		r.shape = append(r.shape, s.K)
 	case "patch":
 		if r.patched {
 			return
@@ -410,7 +457,7 @@ func (r *c15Run) recoverB() {
 	setRandStep("recoverB")
 	nb, err := r.net.startE2Node(r.ctx, 1, st, r.bKey, r.b.intervals, r.b.pubsub, r.opts)
 	if err != nil {
-		r.res.violate("C15", "cannot-restart", "", r.stepNo(), "B failed to restart after a crash: %v", err)
+		r.res.violate(r.prop, "cannot-restart", "", r.stepNo(), "B failed to restart after a crash: %v", err)
 		return
 	}
 	r.b = nb
@@ -428,6 +475,7 @@ func (r *c15Run) stepNo() int { return len(r.shape) }
 
 func (r *c15Run) write(i int, s Step) {
 	a := r.a
+	written := ""
 	name := e3Names[mod(s.C, len(e3Names))]
 	switch {
 	case s.A == 0 || len(r.docIDs) == 0:
@@ -440,6 +488,7 @@ func (r *c15Run) write(i int, s Step) {
 			return
 		}
 		r.docIDs = append(r.docIDs, fmt.Sprint(rows(data, "create_User")[0]["_docID"]))
+		written = r.docIDs[len(r.docIDs)-1]
 		r.shape = append(r.shape, "create")
 	case s.A == 1:
 		id := r.docIDs[mod(s.B, len(r.docIDs))]
@@ -458,6 +507,7 @@ func (r *c15Run) write(i int, s Step) {
 			r.res.HarnessErr = fmt.Sprintf("update: %v", errs)
 			return
 		}
+		written = id
 		r.shape = append(r.shape, "update")
 	default:
 		id := r.docIDs[mod(s.B, len(r.docIDs))]
@@ -470,9 +520,13 @@ func (r *c15Run) write(i int, s Step) {
 			return
 		}
 		r.deleted[id] = true
+		written = id
 		r.shape = append(r.shape, "delete")
 	}
 	r.res.Stats["writes_on_A"]++
+	if written != "" {
+		delete(r.excused, written)
+	}
 	synctest.Wait()
 	r.recordA()
 }
@@ -484,12 +538,12 @@ func (r *c15Run) safety(i int) {
 	}
 	rowsB, err := r.dump(r.b, r.patched)
 	if err != "" {
-		r.res.violate("C15", "receiver-unreadable", "", i, "B cannot be read: %s", err)
+		r.res.violate(r.prop, "receiver-unreadable", "", i, "B cannot be read: %s", err)
 		return
 	}
 	for id, row := range rowsB {
 		if !r.history[id][canon(c15Project(row))] {
-			r.res.violate("C15", "receiver-state-not-a-sender-state", "", i,
+			r.res.violate(r.prop, "receiver-state-not-a-sender-state", "", i,
 				"B shows %s for %s, which A never showed (A's states: %v)", canon(c15Project(row)), id, sortedKeys(r.history[id]))
 			return
 		}
@@ -547,8 +601,13 @@ func (r *c15Run) settle(i int, maxInterval time.Duration) {
 	da, ea := r.dump(r.a, r.patched)
 	dbb, eb := r.dump(r.b, r.patched)
 	if ea != "" || eb != "" {
-		r.res.violate("C15", "unreadable-at-end", "", i, "A: %s B: %s", ea, eb)
+		r.res.violate(r.prop, "unreadable-at-end", "", i, "A: %s B: %s", ea, eb)
 		return
+	}
+	for id := range r.excused {
+		delete(da, id)
+		delete(dbb, id)
+		r.res.Stats["documents_excused_in_flight"]++
 	}
 	if canon(da) != canon(dbb) {
 		cls := "plain"
@@ -574,7 +633,7 @@ func (r *c15Run) settle(i int, maxInterval time.Duration) {
 				r.res.logf("  A peerstore %s = %q", kv.k, short(string(kv.v)))
 			}
 		}
-		r.res.violate("C15", "not-delivered", "not-delivered/"+cls, i,
+		r.res.violate(r.prop, "not-delivered", "not-delivered/"+cls, i,
 			"%v of simulated time after the last fault, with B reachable and no further writes, B's documents differ from A's: %s",
 			time.Since(t0), strings.Join(sortedCopy(diffs), "; "))
 		return
@@ -594,5 +653,9 @@ func (r *c15Run) settle(i int, maxInterval time.Duration) {
 func (r *c15Run) equalAB() bool {
 	da, ea := r.dump(r.a, r.patched)
 	dbb, eb := r.dump(r.b, r.patched)
+	for id := range r.excused {
+		delete(da, id)
+		delete(dbb, id)
+	}
 	return ea == "" && eb == "" && canon(da) == canon(dbb)
 }
